@@ -444,6 +444,18 @@ func checkC05(c C05Case, r *Rec) *Violation {
 			// more informative than Kleene is allowed; C04 checks such answers for soundness
 			r.Class("more-informative-than-kleene")
 		}
+		// a context.Context that is already cancelled / past its deadline in Ctx.Ctx: availability is what the
+		// fetcher says, not what the request's context says - TryEval answers as it does without one
+		if mask%4 == int(hash64(src)%4) {
+			fd := NewFetcher(u, cc, &Log{})
+			fd.Avail, fd.DNEAsValue = avail, f.DNEAsValue
+			ctxD := fd.Ctx()
+			ctxD.Ctx = doneContext(1 + mask%2)
+			od := Safe(func() (eval.Value, error) { return e.TryEval(ctxD) })
+			if !SameOutcome(od, o) {
+				return Violf("C05: with an already cancelled / expired context.Context in Ctx.Ctx TryEval answers differently\n%s\nwithout=%v\nwith a done context=%v", describe(mask, e), o, od)
+			}
+		}
 		// the same Ctx again after every variable has become available (as after Set): the
 		// answer is now the full value, nothing may be remembered from the first attempt
 		if nUnavail > 0 {
